@@ -91,6 +91,14 @@ def gen_case(rng, backend):
             rules.append({"blocking_rule": gen_rule(rng), "salting_partitions": rng.choice([2, 3, 5])})
         else:
             rules.append(gen_rule(rng))
+    # a condition may legitimately be listed twice (e.g. once plain, once salted): match keys of
+    # the rules after the repetition must still be their list positions
+    if len(rules) >= 2 and len(rules) < 4 and rng.random() < 0.25:
+        src = rng.randrange(len(rules))
+        if not (isinstance(rules[src], dict) and "arrays_to_explode" in rules[src]):
+            txt = rule_sql(rules[src])
+            dup = {"blocking_rule": txt, "salting_partitions": 2} if backend == "duckdb" and rng.random() < 0.5 else txt
+            rules.insert(rng.randint(src + 1, len(rules)), dup)
     # the same link job may be presented as ONE pre-concatenated table with a source_dataset column
     one_table = ntab > 1 and rng.random() < 0.2
     return {"link_type": lt, "names": names, "tables": tables, "rules": rules, "backend": backend, "one_table": one_table}
@@ -193,8 +201,27 @@ def run_em_block(case, tabs, s):
 
     api = Cap() if case["backend"] == "duckdb" else Cap(":memory:")
     lk = su.linker(tabs, s, case["backend"], aliases=case["names"] if len(tabs) > 1 else None, api=api)
+    training_rule = rule_sql(case["rules"][0])
+    if case.get("reuse"):
+        # the SAME creator objects are first used at positions 0 and 1 of a rule list by another
+        # function, then the second one is used alone as the EM training rule
+        from splink import block_on
+        from splink.blocking_analysis import cumulative_comparisons_to_be_scored_from_blocking_rules_data
+        c1, c2 = block_on(case["reuse"][0]), block_on(case["reuse"][1])
+        try:
+            if case["reuse"][2] == "analysis":
+                cumulative_comparisons_to_be_scored_from_blocking_rules_data(
+                    table_or_tables=tabs, blocking_rules=[c1, c2], link_type=case["link_type"],
+                    db_api=su.make_api(case["backend"]))
+            else:
+                lk.training.estimate_probability_two_random_records_match([c1, c2], recall=0.99)
+        except Exception:
+            pass
+        su.quiet()
+        captured.clear()
+        training_rule = c2
     try:
-        lk.training.estimate_parameters_using_expectation_maximisation(rule_sql(case["rules"][0]))
+        lk.training.estimate_parameters_using_expectation_maximisation(training_rule)
     except Exception:
         pass
     su.quiet()
@@ -264,6 +291,9 @@ def features_of(case):
         else:
             kinds.append("plain")
     f["one_table"] = bool(case.get("one_table"))
+    f["creator_reused"] = bool(case.get("reuse"))
+    texts = [rule_sql(r) for r in case["rules"]]
+    f["repeated_condition"] = len(set(texts)) < len(texts)
     f["has_salted"] = "salted" in kinds
     f["has_exploding"] = "exploding" in kinds
     # a plain/salted rule mentioning the exploded column listed before an exploding rule (7.13)
@@ -333,6 +363,12 @@ def correspondence(ctx: Ctx, extra_cases=None):
                 # the training block of an EM session blocks on one rule
                 entry = "em_block"
                 case = dict(case, rules=[case["rules"][0]])
+            elif i % 10 == 7:
+                # ... also when its creator object was used before inside a rule list elsewhere
+                x, y = ctx.rng.sample(["a", "b", "c"], 2)
+                entry = "em_block"
+                case = dict(case, rules=[f'l."{y}" = r."{y}"'], one_table=False,
+                            reuse=[x, y, ctx.rng.choice(["analysis", "prior"])])
             rows, mats = outcome_matrices(case)
             impl = run_impl(case, entry)
             t, expd = case_term(case, rows, mats, impl)
@@ -345,6 +381,7 @@ def correspondence(ctx: Ctx, extra_cases=None):
             ctx.hist("link_type", case["link_type"])
             ctx.hist("entry", entry)
             ctx.hist("one_table_formulation", bool(case.get("one_table")))
+            ctx.hist("creator_reused_before_em", bool(case.get("reuse")))
             for r in case["rules"]:
                 ctx.hist("rule_kind", "salted" if isinstance(r, dict) and "salting_partitions" in r else "exploding" if isinstance(r, dict) else "plain")
     bad, errs = ctx.eval_cases("C01_x", HEADER, terms, "run_case", shard=80)
